@@ -15,6 +15,7 @@ from __future__ import annotations
 import glob
 import json
 import os
+import re
 import shutil
 import subprocess
 import sys
@@ -66,13 +67,30 @@ def run_selftest(rep, mod, prog: Program, seed: int) -> None:
             continue
         cases.append((d, meta))
     # behaviour-preserving refactorings (written by independent sub-agents, suite passes with each): every check must stay silent
+    # (replayed for this property when the twin touches a file the property is anchored in - properties.jsonl - or, with VERIF_ALL_TWINS=1, always)
+    anchored = set()
+    try:
+        with open(os.path.join(VERIF, "properties.jsonl")) as fh:
+            for line in fh:
+                d_ = json.loads(line)
+                if d_["id"] == prop:
+                    anchored = set(d_["anchors"]["files"])
+    except OSError:
+        pass
+    skipped_twins = 0
     for d in sorted(glob.glob(os.path.join(VERIF, "twins", "*"))):
-        if os.path.exists(os.path.join(d, "patch.diff")):
+        pf = os.path.join(d, "patch.diff")
+        if os.path.exists(pf):
+            with open(pf) as fh:
+                touched = set(re.findall(r"^\+\+\+ b/(\S+)", fh.read(), re.M))
+            if anchored and not (touched & anchored) and not os.environ.get("VERIF_ALL_TWINS"):
+                skipped_twins += 1
+                continue
             cases.append((d, {"expect": "silent", "status": "neutral"}))
     if not cases:
         rep.selftest = {"cases": 0, "note": "no confirmed corpus entry for this property"}
         return
-    with ThreadPoolExecutor(max_workers=min(16, len(cases))) as ex:
+    with ThreadPoolExecutor(max_workers=min(int(os.environ.get("VERIF_PAR", "8")), len(cases))) as ex:
         results: List[Dict[str, Any]] = list(ex.map(lambda c: _one(prop, prog.src_root, c[0], c[1]), cases))
     rep.selftest = {
         "cases": len(results),
@@ -80,8 +98,9 @@ def run_selftest(rep, mod, prog: Program, seed: int) -> None:
         "skipped": sum(1 for r in results if r["result"] == "skipped"),
         "mismatch": sum(1 for r in results if r["result"] == "MISMATCH"),
         "results": results,
+        "twins_not_replayed": skipped_twins,
         "rule": "each corpus patch is applied to a scratch copy of the current source and the quick check is run on it; "
-                "'violation' cases must exit 1, 'silent' cases must exit 0",
+                "'violation' cases must exit 1, 'silent' cases must exit 0; a behaviour-preserving twin is replayed for the properties anchored in a file it touches",
     }
     for r in results:
         print(f"  selftest {r['case']}: expect {r['expect']} -> {r['result']}" + (f" ({', '.join(r.get('rules_fired', []))})" if r.get("rules_fired") else "")
